@@ -1,11 +1,28 @@
 use crate::ev::Ctx;
 
+pub mod alphabet;
+pub mod c02;
 pub mod c04;
+pub mod c07;
+pub mod c08;
+pub mod c09;
+pub mod c12;
+pub mod c10;
+pub mod c11;
+pub mod c13;
+pub mod c14;
 pub mod codec;
 
 pub fn run(ctx: &Ctx) -> Result<(), String> {
     match ctx.id.as_str() {
+        "C02" => c02::run(ctx),
         "C04" => c04::run(ctx),
+        "C07" => c07::run(ctx),
+        "C08" => c08::run(ctx),
+        "C09" => c09::run(ctx),
+        "C12" => c12::run(ctx),
+        "C13" => c13::run(ctx),
+        "C14" => c14::run(ctx),
         "C05" => codec::run(ctx, codec::Which::C05),
         "C06" => codec::run(ctx, codec::Which::C06),
         other => Err(format!("no check registered for {}", other)),
@@ -34,7 +51,14 @@ pub fn replay(path: &str) -> i32 {
     let mut bad = 0;
     for (k, c) in cases.iter().enumerate() {
         let r: Result<Option<String>, String> = match id.as_str() {
+            "C02" => c02::replay_case(c),
             "C04" => c04::replay_case(c),
+            "C07" => c07::replay_case(c),
+            "C08" => c08::replay_case(c),
+            "C09" => c09::replay_case(c),
+            "C12" => c12::replay_case(c),
+            "C13" => c13::replay_case(c),
+            "C14" => c14::replay_case(c),
             "C05" => codec::replay_case(c, codec::Which::C05),
             "C06" => codec::replay_case(c, codec::Which::C06),
             _ => Err(format!("no replay for {}", id)),
